@@ -88,7 +88,7 @@ def mc_export(base, model, params, name):
            'ACTION_CONSTRAINT Export']
     write_mc(d, 'MC_gen', 'MCVec', defs, cfg)
     outp = os.path.join(d, 'export.txt')
-    rc, _, dt = tlc(d, 'MC_gen', 'MC_gen.cfg', workers=8, outfile=outp, timeout=3000, heap='12g')
+    rc, _, dt = tlc(d, 'MC_gen', 'MC_gen.cfg', workers=6, outfile=outp, timeout=3000, heap='6g')
     edges, tail = parse_export(outp)
     counts = parse_counts(tail)
     if rc != 0 or counts is None or 'No error has been found' not in tail:
@@ -194,7 +194,7 @@ def validate_vec(base, trace, tag):
 NO_FAULT_OPS = {'at', 'index', 'front', 'back', 'iterate', 'relocate', 'destroy', 'eq', 'ne', 'lt', 'le', 'gt', 'ge'}
 
 
-def fault_script(model_dir, max_probes=None, seed=1):
+def fault_script(model_dir, max_probes=None, seed=1, label_fn=None, epilogue=None, no_fault_ops=None):
     """(state, call) of every exported edge whose call may throw: shortest path to the state, then the probed call
     (the harness repeats the execution with the k-th throwing event failing, k = 1, 2, ...), then a fixed epilogue."""
     import pickle
@@ -230,7 +230,12 @@ def fault_script(model_dir, max_probes=None, seed=1):
             p.append(ei)
         p.reverse()
         return p
-    probes = [i for i, (f, l, t) in enumerate(edges) if l['op'] not in NO_FAULT_OPS]
+    label_fn = label_fn or label_line
+    no_fault_ops = no_fault_ops or NO_FAULT_OPS
+    if epilogue is None:
+        epilogue = lambda c: ['?pushBackRv %d 0 0 0 1 0 - 0 0' % c, '?insert1rv %d 0 0 0 2 0 - 0 0' % c,
+                              '?clear %d 0 0 0 0 0 - 0 0' % c]
+    probes = [i for i, (f, l, t) in enumerate(edges) if l['op'] not in no_fault_ops]
     if max_probes and len(probes) > max_probes:
         rnd = random.Random(seed)
         probes = sorted(rnd.sample(probes, max_probes))
@@ -238,12 +243,10 @@ def fault_script(model_dir, max_probes=None, seed=1):
         for i in probes:
             f, l, t = edges[i]
             for ei in path_to(f):
-                fo.write(label_line(edges[ei][1]) + '\n')
-            fo.write('!' + label_line(l) + '\n')
-            c = l['c']
-            fo.write('?pushBackRv %d 0 0 0 1 0 - 0 0\n' % c)
-            fo.write('?insert1rv %d 0 0 0 2 0 - 0 0\n' % c)
-            fo.write('?clear %d 0 0 0 0 0 - 0 0\n' % c)
+                fo.write(label_fn(edges[ei][1]) + '\n')
+            fo.write('!' + label_fn(l) + '\n')
+            for ln in epilogue(l['c']):
+                fo.write(ln + '\n')
             fo.write('reset\n')
     info = dict(probes=len(probes), edges=len(edges))
     json.dump(info, open(info_path, 'w'))
